@@ -3,6 +3,7 @@ from mirlib import *
 import page_rules
 import cache_rules
 import crc_rules
+import header_rules
 
 TECHNIQUE = "MIR dominance / must-pass-through rules of the page writer (seal-before-emit, flush-before-seek, reload-after-advance), expression-tree match of the logical<->physical formulas and align, explicit who-may-assign table of the page cursors, short-read loop shape, page constants agreement, reader cache typestate"
 EXPLANATION = (
@@ -27,6 +28,7 @@ def run(ctx):
     ctx.rule("R6", "read_current_page loops over short reads until full or EOF and zero-fills the rest of the whole page buffer")
     ctx.rule("R7", "the page reader's cache typestate: who-may-write, invalidate-on-clobber, validate-before-publish (shared with C07-R1..R3)")
     ctx.rule("R8", "the built-in checksum is the table-driven CRC-32C over every byte of the slice it is given (shared with C07-R5)")
+    ctx.rule("R9", "the page layer starts on an empty device (PagedWriter::new asks the device for its end), so old bytes never show up as page fill (shared with C15-R2)")
     for cfg in ["lib", "lib_crc32c"]:
         prog, info = load_program(cfg, "e57")
         ctx.configs[cfg] = info
@@ -41,6 +43,7 @@ def run(ctx):
         ctx.call(page_rules.read_current_page_shape, prog, "R6")
         if cfg == "lib":
             ctx.call(crc_rules.crc32c_shape, prog, "R8")
+        ctx.call(header_rules.placeholder, prog, "R9")
         ctx.call(cache_rules.serve_only_verified, prog, cache_rules.PR, rule="R4")
         ctx.call(cache_rules.who_may_write, prog, cache_rules.PR, rule="R7")
         ctx.call(cache_rules.invalidate_on_clobber, prog, cache_rules.PR, rule="R7")
